@@ -38,7 +38,9 @@ QuadsFull == <<
   << <<LP>>, <<RP, RP>>, <<LT>>, <<GT>> >>,
   << <<LP, RP>>, <<RP>>, <<LT>>, <<GT>> >>,
   << <<DL, DL>>, <<HS, HS>>, <<AT>>, <<TD>> >>,
-  << <<DL, DL, HS>>, <<HS>>, <<AT>>, <<TD>> >>
+  << <<DL, DL, HS>>, <<HS>>, <<AT>>, <<TD>> >>,
+  \* an object delimiter longer than a whole short tag ("<x>"): the end of the source comes before it would
+  << <<LP, LP, LP, LP>>, <<RP, RP, RP, RP>>, <<LT>>, <<GT>> >>
 >>
 NonPrefixing(q) == \A i, j \in 1..4 : i # j => ~IsPrefixOf(q[i], q[j])
 Quads == SelectSeq(QuadsFull, NonPrefixing)
